@@ -14,16 +14,17 @@
 (* Tier selects how many chain combinations are used on the 3- and 4-ROADM shapes.                              *)
 EXTENDS DesignStructure, Json
 
-CONSTANT Tier                      \* "quick" | "thorough"
+CONSTANT Tier                      \* "quick" | "thorough" | "b1quick" (the quick tier's exhaustive run: fewer settings)
 
 dB == 1000000
 km == 1000
 
 Blank(name, type) == [name |-> name, type |-> type, succ |-> {}, pred |-> {}, len |-> 0, coef |-> 0, variety |-> "",
-                      conIn |-> NONE, conOut |-> NONE, attIn |-> NONE, loss |-> 0, sub |-> <<>>, origin |-> "", coefTab |-> <<>>, opt |-> ""]
+                      conIn |-> NONE, conOut |-> NONE, attIn |-> NONE, loss |-> 0, sub |-> <<>>, origin |-> "", coefTab |-> <<>>, opt |-> "", phys |-> <<>>]
 \* chain element descriptors
 F(l) == [t |-> "Fiber", len |-> l, k |-> "", att |-> 0, ci |-> NONE, co |-> NONE]
 FQ(l) == [F(l) EXCEPT !.k = "perfreq"]                 \* fibre whose loss coefficient is given per frequency
+FU(l, tag) == [F(l) EXCEPT !.k = tag]                 \* fibre with further user parameters (see harness/design_util.py)
 FM(l) == [F(l) EXCEPT !.k = "pmd"]                     \* fibre with a user pmd_coef different from its library type
 FP(l, a) == [F(l) EXCEPT !.att = a]                     \* fibre with a user-set padding attenuator att_in
 FC(l, i, o) == [F(l) EXCEPT !.ci = i, !.co = o]         \* fibre that describes its connectors itself (NONE = left to the Span default)
@@ -38,7 +39,7 @@ UserSub(k) == IF k = "full" THEN [variety |-> "std_medium_gain", gain |-> 18 * d
               ELSE NoSub
 Concrete(d, name) ==
     IF d.t = "Fiber" THEN [Blank(name, "Fiber") EXCEPT !.len = d.len, !.coef = 200, !.variety = "SSMF", !.attIn = d.att,
-                               !.conIn = d.ci, !.conOut = d.co, !.opt = IF d.k = "pmd" THEN "pmd" ELSE "", !.coefTab = IF d.k = "perfreq" THEN LossTable ELSE <<>>]
+                               !.conIn = d.ci, !.conOut = d.co, !.opt = IF d.k \in {"", "perfreq"} THEN "" ELSE d.k, !.coefTab = IF d.k = "perfreq" THEN LossTable ELSE <<>>]
     ELSE IF d.t = "RamanFiber" THEN [Blank(name, "RamanFiber") EXCEPT !.len = d.len, !.coef = 200, !.variety = "SSMF",
                                         !.attIn = 0, !.conIn = dB \div 2, !.conOut = dB \div 2]
     ELSE IF d.t = "Fused" THEN [Blank(name, "Fused") EXCEPT !.loss = dB]
@@ -49,7 +50,8 @@ Plain  == {<<F(l)>> : l \in Lens}
 Spliced == {<<F(a), X, F(b)>> : a \in {50, 20 * km, 151 * km}, b \in {50, 80 * km, 400 * km}}
 WithAmp == {<<F(p[1]), A(k), F(p[2])>> : p \in {<<20 * km, 80 * km>>, <<80 * km, 50>>, <<151 * km, 20 * km>>},
                                          k \in {"full", "partial", "none"}}
-Raman  == {<<R(80 * km)>>, <<F(80 * km), A("full"), R(80 * km)>>, <<R(80 * km), F(20 * km)>>, <<F(20 * km), R(80 * km)>>}
+Raman  == {<<R(80 * km)>>, <<F(80 * km), A("full"), R(80 * km)>>, <<R(80 * km), F(20 * km)>>, <<F(20 * km), R(80 * km)>>,
+           <<R(80 * km), X, F(20 * km)>>}
 \* user-set padding attenuators: alone, and on the first / (mirrored) last fibre of a spliced span shorter than the padding
 Padded == {<<FP(20 * km, 3 * dB)>>, <<FP(20 * km, 3 * dB), X, F(50)>>, <<FP(50, 3 * dB), X, F(20 * km)>>,
            <<FP(50, 2 * dB), X, FP(50, dB)>>}
@@ -58,11 +60,20 @@ DoubleSplice == {<<F(50), X, X, F(50)>>, <<F(20 * km), X, X, F(50)>>}
 \* one connector described by the topology, the other left to the Span default; both described
 OneConnector == {<<FC(80 * km, dB \div 2, NONE)>>, <<FC(20 * km, NONE, dB \div 4)>>, <<FC(50, dB \div 2, NONE), X, FC(20 * km, dB, dB)>>}
 \* user fibre parameters that only the export / reload round trip can lose (one of the fibres splits)
-UserParams == {<<FM(151 * km)>>, <<FM(20 * km), X, F(80 * km)>>}
+\* pmd: pmd_coef; lumped: a lumped loss inside the fibre; dispfreq: dispersion given per frequency; disp: dispersion and
+\* effective area different from the library type
+UserParams == {<<FM(151 * km)>>, <<FM(20 * km), X, F(80 * km)>>, <<FU(80 * km, "lumped")>>, <<FU(151 * km, "dispfreq")>>,
+               <<FU(80 * km, "dispfreq")>>, <<FU(80 * km, "disp")>>}
+\* two fibres joined directly (an in-line amplifier is to be inserted between unequal spans)
+Joined == {<<F(80 * km), F(20 * km)>>, <<F(95 * km), F(50), F(80 * km)>>}
+\* line systems in which the user placed every amplifier (some spans shorter than the padding, connectors undescribed):
+\* also designed with amplifier insertion switched off
+Complete == {<<A("none"), F(20 * km), A("none")>>, <<A("partial"), F(50), X, F(50), A("none")>>,
+             <<A("none"), F(80 * km), A("full"), FC(20 * km, NONE, dB \div 4), A("none")>>}
 \* a user output VOA on an otherwise automatic amplifier, followed by two more amplifiers (the second fibre splits)
 UserVoa == {<<F(80 * km), A("voa"), F(151 * km)>>, <<F(20 * km), A("voa"), F(80 * km)>>}
 PerFreq == {<<FQ(151 * km)>>, <<FQ(20 * km), X, F(80 * km)>>}
-Chains == Plain \cup Spliced \cup WithAmp \cup Padded \cup PerFreq \cup DoubleSplice \cup OneConnector \cup UserParams \cup UserVoa
+Chains == Plain \cup Spliced \cup WithAmp \cup Padded \cup PerFreq \cup DoubleSplice \cup OneConnector \cup UserParams \cup UserVoa \cup Joined \cup Complete
 \* representatives used where the full product would be too large
 Reps   == {<<F(50)>>, <<F(80 * km)>>, <<F(400 * km)>>, <<F(20 * km), X, F(50)>>, <<F(151 * km), X, F(80 * km)>>,
            <<F(20 * km), A("none"), F(80 * km)>>, <<F(151 * km), A("full"), F(20 * km)>>, <<F(80 * km), A("partial"), F(50)>>}
@@ -91,6 +102,8 @@ AddLine(G, a, b, ch) ==
 AddLink(G, a, b, ch) == AddLine(AddLine(G, a, b, ch), b, a, Reverse(ch))
 
 Pair(c)        == AddLink(Sites(2), 1, 2, c)
+\* the same with ROADM A carrying element-level impairment parameters (add_drop_osnr, pmd, pdl) of its own
+PairR(c)       == [Pair(c) EXCEPT ![1] = [@ EXCEPT !.opt = "impair"]]
 Line3(c, d)    == AddLink(AddLink(Sites(3), 1, 2, c), 2, 3, d)
 Tri(c, d, e)   == AddLink(AddLink(AddLink(Sites(3), 1, 2, c), 2, 3, d), 1, 3, e)
 Star(c, d, e)  == AddLink(AddLink(AddLink(Sites(4), 2, 1, c), 2, 3, d), 2, 4, e)      \* hub B of degree 3, leaves of degree 1
@@ -102,22 +115,30 @@ Setting(pad, eol, maxl, pm) == [padding |-> pad * dB, eol |-> eol * dB, maxLen |
                                 conIn |-> 300000, conOut |-> 400000,
                                 siBand |-> IF (eol + (IF pm THEN 1 ELSE 0)) % 2 = 1 THEN AmpBand ELSE InnerBand,
                                 ampBand |-> AmpBand,
+                                insert |-> TRUE,                                   \* amplifier insertion on (the default)
+                                lenUnits |-> IF (pad \div 10 + (IF pm THEN 1 ELSE 0)) % 2 = 1 THEN "m" ELSE "km",  \* unit of Span.max_length
                                 lib |-> {"std_low_gain", "std_medium_gain", "std_high_gain"}]
-MaxLens == IF Tier = "quick" THEN {80, 150} ELSE {80, 100, 150}
+MaxLens == IF Tier = "thorough" THEN {80, 100, 150} ELSE {80, 150}
 AllSettings == {Setting(p, e, m, pm) : p \in {0, 10}, e \in {0, 1}, m \in MaxLens, pm \in BOOLEAN}
 \* strength-3 half fraction of the 16 settings (even parity of the four binary factors)
 HalfSettings == {Setting(p, e, m, ((p \div 10) + e + (IF m = 150 THEN 1 ELSE 0)) % 2 = 1) : p \in {0, 10}, e \in {0, 1}, m \in {80, 150}}
 FewSettings == {Setting(10, 0, 150, TRUE), Setting(0, 1, 80, FALSE), Setting(10, 1, 80, TRUE), Setting(0, 0, 150, FALSE)}
 
 Graphs == {Pair(c) : c \in Chains}
+NoInsert(s) == [s EXCEPT !.insert = FALSE]
 \* a Raman estimation costs ~0.3 s in the real code: the Raman chains run under the half fraction of the settings
-GraphsHalf == {Pair(c) : c \in Raman} \cup (IF Tier = "quick" THEN {} ELSE {Line3(c, d) : c \in Chains, d \in Reps})
-GraphsFew == IF Tier = "quick"
-             THEN {Line3(c, d) : c \in Reps, d \in Reps} \cup {Tri(c, d, e) : c \in Few, d \in Few, e \in {<<F(80 * km)>>}}
+GraphsHalf == {Pair(c) : c \in Raman} \cup {PairR(c) : c \in {<<F(80 * km)>>, <<F(151 * km)>>}} \cup (IF Tier # "thorough" THEN {} ELSE {Line3(c, d) : c \in Chains, d \in Reps})
+GraphsFew == IF Tier # "thorough"
+             THEN {Line3(c, d) : c \in Reps, d \in Few} \cup {Tri(c, d, e) : c \in Few, d \in Few, e \in {<<F(80 * km)>>}}
              ELSE {Tri(c, d, e) : c \in Reps, d \in Reps, e \in Few} \cup {Star(c, d, e) : c \in Reps, d \in Reps, e \in Few}
 
-MCCases == {[g |-> x, s |-> s] : x \in Graphs, s \in AllSettings}
-           \cup {[g |-> x, s |-> s] : x \in GraphsHalf, s \in HalfSettings}
+\* thorough: the 2-ROADM shape under every setting; quick: under the half fraction (all of them are designed by the
+\* real code, B2); b1quick (the exhaustive run of the quick tier): under two settings
+TwoSettings == {Setting(10, 0, 150, TRUE), Setting(0, 1, 80, FALSE)}
+PairSettings == IF Tier = "thorough" THEN AllSettings ELSE IF Tier = "quick" THEN HalfSettings ELSE TwoSettings
+MCCases == {[g |-> x, s |-> s] : x \in Graphs, s \in PairSettings}
+           \cup {[g |-> Pair(c), s |-> NoInsert(s)] : c \in Complete, s \in (IF Tier = "b1quick" THEN FewSettings ELSE HalfSettings)}
+           \cup {[g |-> x, s |-> s] : x \in GraphsHalf, s \in (IF Tier = "b1quick" THEN FewSettings ELSE HalfSettings)}
            \cup {[g |-> x, s |-> s] : x \in GraphsFew, s \in FewSettings}
 
 \* B2: one line per enumerated case (printed for the initial state of its behaviour); the harness renders it as
